@@ -48,6 +48,7 @@ SuffixCollision(xf, it) ==
 \* What an operation does to the list of item identities (plain list semantics).
 Adds(xf, pre, e) ==
     \/ e.op \in {"append", "insert", "setitem"}
+    \/ e.op = "setidx" /\ PyPos(Len(pre), e.i) # 0          \* s[i] = item replaces position i, exactly as in a list
     \/ e.op = "get" /\ e.add /\ Lookup(xf, pre, e.k) = 0
 
 ExpIds(xf, pre, e) ==
@@ -58,12 +59,16 @@ ExpIds(xf, pre, e) ==
       [] e.op = "setitem" -> LET p == Lookup(xf, pre, e.k) IN IF p = 0 THEN Append(Ids(pre), e.nid)
                                                                ELSE [Ids(pre) EXCEPT ![p] = e.nid]
       [] e.op = "get"     -> IF e.add /\ Lookup(xf, pre, e.k) = 0 THEN Append(Ids(pre), e.nid) ELSE Ids(pre)
+      [] e.op = "setidx"  -> LET p == PyPos(Len(pre), e.i) IN IF p = 0 THEN Ids(pre) ELSE [Ids(pre) EXCEPT ![p] = e.nid]
+      [] e.op = "delslice" -> LET gone == Range(Ids(PySlice(pre, e.a, e.b)))          \* del s[a:b], exactly as in a list
+                              IN SelectSeq(Ids(pre), LAMBDA x : x \notin gone)
       [] OTHER            -> Ids(pre)
 
 ExpExc(xf, pre, e) ==
     CASE e.op = "delidx"   -> IF PyPos(Len(pre), e.i) = 0 THEN "IndexError" ELSE ""
       [] e.op = "delkey"   -> IF Lookup(xf, pre, e.k) = 0 THEN "KeyError" ELSE ""
       [] e.op = "setvalue" -> IF Lookup(xf, pre, e.k) = 0 THEN "KeyError" ELSE ""
+      [] e.op = "setidx"   -> IF PyPos(Len(pre), e.i) = 0 THEN "IndexError" ELSE ""
       [] OTHER             -> ""
 
 NewName(e) == IF e.op = "get" THEN e.k ELSE e.n
@@ -80,7 +85,7 @@ C_Values(xf, pre, e, post) ==
         post[j].v = IF e.op = "setvalue" /\ Lookup(xf, pre, e.k) = i THEN e.v ELSE pre[i].v
 \* after an insertion (append, insert, get(add=True)) the items sharing the new name are numbered :1..:n
 C_Numbered(xf, pre, e, post) ==
-    (Adds(xf, pre, e) /\ e.op # "setitem") =>
+    (Adds(xf, pre, e) /\ e.op \notin {"setitem", "setidx"}) =>
         LET p == PosOfId(post, e.nid) IN p # 0 => NumberedGroup(xf, post, p)
 \* ... and every other item keeps the session name it had
 C_Untouched(xf, pre, e, post) ==
@@ -88,7 +93,7 @@ C_Untouched(xf, pre, e, post) ==
     THEN LET p == PosOfId(post, e.nid)
          IN p # 0 => \A j \in DOMAIN post \ GroupOf(xf, post, p) :
                         \A i \in DOMAIN pre : pre[i].id = post[j].id => pre[i].s = post[j].s
-    ELSE IF e.op \in {"delidx", "delkey"}
+    ELSE IF e.op \in {"delidx", "delkey", "delslice"}
          THEN TRUE       \* the statement fixes nothing about names after a deletion but distinctness
          ELSE \A i \in DOMAIN pre, j \in DOMAIN post : pre[i].id = post[j].id => pre[i].s = post[j].s
 C_Distinct(xf, post) == Distinct(xf, post)
